@@ -40,4 +40,4 @@ ASSUME = c01.ASSUME
 if __name__ == '__main__':
     tier = sys.argv[1] if len(sys.argv) > 1 else 'quick'
     sys.exit(run_check('C02', tier, layers(tier), assumptions=ASSUME,
-                       cap_s=240 if tier == 'quick' else 6000))
+                       cap_s=900 if tier == 'quick' else 7200))
